@@ -77,6 +77,9 @@ def determineRescaledBounds (pmin pmax xmin xmax : K) (invert : Edge) (inversion
 /-- support of `log_uniform_prior(x, xmin, xmax)`: `(x >= xmin) & (x <= xmax)` -/
 def inUniformSupport (x xmin xmax : K) : Bool := !(decide (x < xmin)) && !(decide (xmax < x))
 
+/-- `exp(log_uniform_prior(x, xmin, xmax))`: the (unnormalised) prime-space prior value, 1 on the closed interval, 0 off it -/
+def uniformPriorFactor (x xmin xmax : K) : K := if inUniformSupport x xmin xmax then 1 else 0
+
 /-! ### ScaleAndShift / Rescale -/
 
 structure SS (K : Type) where
